@@ -298,6 +298,9 @@ GEN = {
     "C11": "buffer_geometry (guard, dispatch) and the three closed-form buffers",
     "C12": "intervals_overlap, have_temporal_overlap, have_frequency_overlap, is_in_clip",
     "C14": "the generator loop of segment_clip",
+    "C19": "classification_encoding, multilabel_encoding and prediction_encoding (the encoder entering through its encode function and num_classes)",
+    "C04": "the validators ClipEvaluation._check_clips_match / _check_matches, AnnotationProject._annotations_are_part_of_the_project and Clip._validate_times",
+    "C05": "the nine per-type functions of compute_geometric_features and its dispatch table",
 }
 for _pid, _what in GEN.items():
     _t, _n, _tech, _ref = CLAIMED[_pid]
